@@ -1,7 +1,7 @@
 (* Property C12: eager start -- eligible jobs start immediately; a free window slot is never wasted.
    Only property theorems here. Model R, level 2 (timing: the clock moves only at quiescent points). *)
 From AJ Require Import Common.Util Run.RModel Run.RFacts Run.RFacts2 Run.RInv Run.RMon Run.RWin Run.RProps1
-  Run.RProps3 Run.RProps4 Run.RShut1 Run.RShut2 Run.RTime Run.RPrompt Props.RExample.
+  Run.RProps3 Run.RProps4 Run.RShut1 Run.RShut2 Run.RTime Run.RPrompt Props.RExample Run.RSchedDef Run.RFlatten Run.RSolve Run.RSched Run.RSchedTop.
 
 (* Time passes only through ETick, and (level 2) only in a quiescent state: no job, run or handler
    has anything left to do at the current instant. *)
@@ -73,6 +73,33 @@ Print Assumptions C12_accepted_histories.
 
 (* Not proved: the hand-over order among several queued jobs (FIFO) -- the property only requires
    that no slot is wasted. *)
+
+(* first sentence in closed form: in a tree without window, timeout or forever job, as long as no
+   critical job has raised, every job starts at the very instant S x at which its scheduler has
+   begun and its last requirement ends (entry jobs when their run begins; the root begins at 0),
+   whatever the insertion and iteration orders: the instants are a function of the tree alone *)
+Theorem C12_runs_on_computed_schedule : forall c h s, wf c = true -> plain c = true ->
+  Reach 3 c h s -> calm c (Eof c) s ->
+  forall x, x < njobs c -> x <> 0 -> on_schedule c (Sof c) (Eof c) s x.
+Proof. exact runs_on_computed_schedule. Qed.
+Print Assumptions C12_runs_on_computed_schedule.
+
+Theorem C12_computed_start : forall c x, wf c = true -> x < njobs c -> x <> 0 ->
+  Sof c x = maxl (Sof c (parent c x)) (map (Eof c) (reqs c x)) /\ Sof c 0 = 0%N.
+Proof. exact computed_start. Qed.
+Print Assumptions C12_computed_start.
+
+Theorem C12_not_started_before : forall c S E h s x, wf c = true -> plain c = true -> is_schedule c S E ->
+  Reach 3 c h s -> calm c E s -> x < njobs c -> x <> 0 ->
+  (now s < S x)%N -> st (Jb s x) = Idle \/ st (Jb s x) = Created.
+Proof. exact not_started_before. Qed.
+Print Assumptions C12_not_started_before.
+
+Theorem C12_running_between : forall c S E h s x, wf c = true -> plain c = true -> is_schedule c S E ->
+  Reach 3 c h s -> calm c E s -> x < njobs c -> x <> 0 ->
+  (S x < now s)%N -> (now s < E x)%N -> st (Jb s x) = Running.
+Proof. exact running_between. Qed.
+Print Assumptions C12_running_between.
 
 Example C12_nonvacuous :
   accept 3 ex_cfg ex_hist = true /\
